@@ -1,4 +1,5 @@
 import SemVerif.Lemmas.T2Fn
+import SemVerif.Lemmas.AttrIdx
 import SemVerif.Props.C14
 /-!
 # Family T2 at program level — the emitted stacks denote the source
@@ -13,7 +14,15 @@ number of functions.  C03, C06, C08 and C19 are projections of this equation.
 namespace SemVerif
 
 theorem gnames_of_rel {gs : GState} {ds : DS} (h : Rel gs ds) : GNames gs.globals := by
-  refine ⟨?_, ?_⟩
+  refine ⟨?_, ?_, ?_⟩
+  rotate_left 2
+  · intro n name as ht
+    have hm := assocGet_mem n gs.types _ ht
+    rw [h.types, List.mem_map] at hm
+    obtain ⟨d, _, hd⟩ := hm
+    simp only [tyEntry, Prod.mk.injEq, Ty.struct.injEq] at hd
+    rw [← hd.2.2]
+    exact attrsToMap_idxOK d.attrs
   · intro n c hc
     have hm := assocGet_mem n gs.consts c hc
     rw [h.consts, List.mem_filterMap] at hm
